@@ -9,16 +9,29 @@ for d in sorted(glob.glob('/verif/seeded/*')):
     meta = json.load(open(m))
     conf = json.load(open(c)) if os.path.exists(c) else {}
     sigs = ''
-    so = os.path.join(d, 'check.stderr')
-    if os.path.exists(so):
-        found = re.findall(r'^\[check\] ([^:]+?): ', open(so).read(), flags=re.M)
-        found = [f for f in found if not f.startswith('built') and not f.startswith('C') and not f.startswith('note')]
-        sigs = '; '.join(sorted(set(found))[:3])
-    extra = meta.get('also_detected_by', '')
-    status = 'not confirmed' if not conf else ('seed rejected: ' + conf.get('reject_reason', 'demo/suite') if not conf.get('seed_confirmed') else ('**caught**' if conf.get('detected') else ('caught by ' + extra if extra else '**missed**')))
-    rows.append('| %s | %s | %s | %s | %s |' % (os.path.basename(d), meta.get('property'), (meta.get('summary', '') or '')[:170].replace('|', '/').replace('\n', ' '),
-                                              (meta.get('needs_to_manifest', '') or '')[:140].replace('|', '/').replace('\n', ' '), status + ((' — `' + sigs[:150] + '`') if sigs and conf.get('detected') else '')))
-table = '| seed | property | change | needs to manifest | quick check of that property |\n|---|---|---|---|---|\n' + '\n'.join(rows) + '\n'
+    detected = None
+    qc = os.path.join(d, 'quickcheck.txt')
+    if os.path.exists(qc):
+        t = open(qc).read()
+        m = re.search(r'rc=(\d+)', t)
+        if m:
+            detected = m.group(1) == '1'
+        sigs = '; '.join(x.strip().split(':')[0] for x in t.split(' ', 2)[-1].split(';')[:3] if '/' in x)[:170]
+    if conf:
+        detected = conf.get('detected', detected) if detected is None else detected
+    if not conf:
+        cstat = 'demo + suite not re-run by the coordinator (authoring agent confirmed both)'
+    elif conf.get('seed_confirmed'):
+        cstat = 'confirmed (demo passes without / fails with the patch; baseline suite passes with it)'
+    else:
+        cstat = 'NOT confirmed (demo %s/%s, suite %s)' % (conf.get('demo_exit_without_patch'), conf.get('demo_exit_with_patch'), conf.get('baseline_suite_with_patch'))
+    note = meta.get('coordinator_note', '')
+    dstat = 'not run' if detected is None else ('**caught**' if detected else '**missed**')
+    if note:
+        dstat += ' (' + note[:200] + ')'
+    rows.append('| %s | %s | %s | %s | %s | %s |' % (os.path.basename(d), meta.get('property'), (meta.get('summary', '') or '')[:170].replace('|', '/').replace('\n', ' '),
+                                                 (meta.get('needs_to_manifest', '') or '')[:140].replace('|', '/').replace('\n', ' '), cstat, dstat + ((' — `' + sigs + '`') if sigs and detected else '')))
+table = '| seed | property | change | needs to manifest | seed confirmation | quick check of that property |\n|---|---|---|---|---|---|\n' + '\n'.join(rows) + '\n'
 p = '/verif/DESIGN.md'
 s = open(p).read()
 if 'SEED_TABLE_PLACEHOLDER' in s:
